@@ -3521,3 +3521,316 @@ func c20FromEntryReaches(w *World, fn *ssa.Function, target *ssa.Call) bool {
 	cutInto(fi, target.Block(), cut)
 	return fi.successWitness(Mode{Kind: mErr}, []state{{0, 0, -1}}, cut) == nil
 }
+
+// ---- sixth pass: guards as must-pass facts ----------------------------------------------------------------------
+//
+// The guard-mutation campaign weakened every guard of the install tree to `false && (C)`: the test is still there, what
+// lies behind its edges is still right, but the guarded code is reached without it. Rules that start at the edge of a
+// test ("from the true edge of d.IsDir() every return is SkipDir", "from the true edge of IsRegular() every path reaches
+// the copy") cannot see that. The rules below ask the question from the entry of the per-entry function instead: with
+// the edges removed on which the entry is known to be something else, nothing but the required answer is reachable.
+
+// c20Exit: a return of a function that a path from the start states reaches without using a cut edge.
+type c20Exit struct {
+	ret  *ssa.Return
+	val  ssa.Value // the error result on that path (a phi in the return's block resolved to the edge of the path)
+	fail bool      // a value that is never nil (an error was built, or the value was tested non-nil)
+}
+
+func c20ExitsUnder(fi *FnInfo, starts []state, cut map[edgeKey]bool) []c20Exit {
+	type rk struct {
+		r *ssa.Return
+		p int
+	}
+	seen := map[rk]bool{}
+	var out []c20Exit
+	var sts []state
+	for s := range fi.reach(starts, cut) {
+		sts = append(sts, s)
+	}
+	sort.Slice(sts, func(i, j int) bool {
+		if sts[i].b != sts[j].b {
+			return sts[i].b < sts[j].b
+		}
+		if sts[i].p != sts[j].p {
+			return sts[i].p < sts[j].p
+		}
+		return sts[i].m < sts[j].m
+	})
+	for _, s := range sts {
+		b := fi.Fn.Blocks[s.b]
+		r, isRet := blockTerm(b).(*ssa.Return)
+		if !isRet {
+			continue
+		}
+		e := c20Exit{ret: r}
+		if v := modeOperand(r, Mode{Kind: mErr}); v != nil {
+			if p, ok := v.(*ssa.Phi); ok && p.Block() == b && s.p >= 0 && s.p < len(p.Edges) {
+				v = p.Edges[s.p]
+			}
+			e.val = v
+		}
+		cl, tail, _, _ := fi.classify(r, state{s.b, fi.through(b, s.m), s.p}, Mode{Kind: mErr})
+		e.fail = cl == clFail || (tail != nil && fi.ignoreTail[tail])
+		if !e.fail {
+			// one report per return and way into it is enough
+			if seen[rk{r, s.p}] {
+				continue
+			}
+			seen[rk{r, s.p}] = true
+		}
+		out = append(out, e)
+	}
+	return out
+}
+
+// c20IsSkip: the value is one of the walk's "skip" answers; dirOnly: SkipDir only.
+func c20IsSkip(v ssa.Value, dirOnly bool) bool {
+	if v == nil {
+		return false
+	}
+	d := desc(v)
+	if d == "global:io/fs.SkipDir" || d == "global:path/filepath.SkipDir" {
+		return true
+	}
+	return !dirOnly && (d == "global:io/fs.SkipAll" || d == "global:path/filepath.SkipAll")
+}
+
+// c20EntryLabels: the labels of the edges on which the entry `d` (printed form of the per-entry function's parameter) is
+// known (truth) / known not (!truth) to be a directory, resp. a regular file — however the test is spelled on the entry
+// itself, its type bits or its own Info.
+func c20EntryLabels(d, what string, truth bool) []string {
+	info := "call:invoke:io/fs.DirEntry.Info(" + d + ")#0"
+	var preds []string
+	switch what {
+	case "dir":
+		preds = []string{
+			"call:invoke:io/fs.DirEntry.IsDir(" + d + ")",
+			"call:(io/fs.FileMode).IsDir(call:invoke:io/fs.DirEntry.Type(" + d + "))",
+			"call:(io/fs.FileMode).IsDir(call:invoke:io/fs.FileInfo.Mode(" + info + "))",
+			"call:invoke:io/fs.FileInfo.IsDir(" + info + ")",
+		}
+	case "regular":
+		preds = []string{"call:(io/fs.FileMode).IsRegular(call:invoke:io/fs.FileInfo.Mode(" + info + "))"}
+	}
+	var out []string
+	for _, p := range preds {
+		if truth {
+			out = append(out, "T("+p+")")
+		} else {
+			out = append(out, "F("+p+")")
+		}
+	}
+	return out
+}
+
+// c20SubDirsAnswered: with the edges removed on which the entry is not a directory or its path is the walk root, every
+// return of the WalkDir callback that is still reachable from its entry answers SkipDir, or fails the walk. ("" = yes.)
+// A callback whose `d.IsDir() && p != root` test got a further conjunct reaches its other returns without passing one
+// of those edges: a sub-directory is then entered and its files are seen as if they were top-level files.
+func c20SubDirsAnswered(w *World, cl *ssa.Function, p, d, rootIn string) string {
+	fi := w.Info(cl)
+	ls := append(c20EntryLabels(d, "dir", false), "EQ("+p+","+rootIn+")", "EQ("+rootIn+","+p+")")
+	cut := fi.edgesMatching(anyOf(ls...))
+	for _, e := range c20ExitsUnder(fi, entryState(), cut) {
+		if e.fail || c20IsSkip(e.val, true) {
+			continue
+		}
+		rd := "nothing"
+		if e.val != nil {
+			rd = trunc(desc(e.val), 60)
+		}
+		return "an entry that is neither known to be the walk root nor known not to be a directory reaches `return " + rd + "` at " + w.InstrPos(e.ret)
+	}
+	return ""
+}
+
+// c20NoSuccessWithout: every path of the per-entry function fn from its entry that does not fail the walk passes the
+// block of one of the target calls — unless the entry is known to be a directory or known not to be a regular file
+// (those edges are removed together with the edges into the targets; nothing that can answer "go on" may remain
+// reachable). "" = yes, else the return that is reached.
+func c20NoSuccessWithout(w *World, fn *ssa.Function, d string, targets []*ssa.Call) string {
+	fi := w.Info(fn)
+	for _, t := range targets {
+		if t.Block().Index == 0 {
+			return ""
+		}
+	}
+	cut := fi.edgesMatching(anyOf(append(c20EntryLabels(d, "regular", false), c20EntryLabels(d, "dir", true)...)...))
+	for _, t := range targets {
+		cutInto(fi, t.Block(), cut)
+	}
+	for _, e := range c20ExitsUnder(fi, entryState(), cut) {
+		if e.fail {
+			continue
+		}
+		return "an entry that may be a regular file reaches the return at " + w.InstrPos(e.ret) + " without having been handed on"
+	}
+	return ""
+}
+
+// c20WalkErrW: the error the walk hands to its callback. WalkDir reports a directory it could not read, or an entry
+// it could not stat, by calling the callback with that error; if the callback answers nil (or a skip) the walk goes on
+// and finally returns nil — the source parser then decides on a partial listing and the directory copy reports success
+// although files were not copied. So every return of the callback that does not fail the walk lies behind `err == nil`
+// for the callback's own error parameter. Accepted: any spelling whose nil edge is a comparison of that parameter with
+// nil (`if err != nil { return err }`, `if err == nil { … }`, wrapped errors); the return of the parameter itself behind
+// `err != nil` is a failing return.
+func c20WalkErrW(c *Ctx, k *c20Walk) {
+	w := c.W
+	cl := k.cb
+	key := "discovery/walk-error-returned/" + fnName(k.outer)
+	rule := "the WalkDir callback goes on only when the walk handed it no error: behind anything but `err == nil` for its own error parameter it fails the walk (an unreadable directory or entry makes the parser refuse the source and the directory copy fail)"
+	errP := cl.Params[len(cl.Params)-1]
+	if !isErrorType(errP.Type()) {
+		c.Unk(key, rule, w.FnPos(cl), "the last parameter of the callback is not an error")
+		return
+	}
+	fi := w.Info(cl)
+	cut := fi.edgesMatching(anyOf("EQ(" + desc(errP) + ",nil)"))
+	c.Evals++
+	for _, e := range c20ExitsUnder(fi, entryState(), cut) {
+		if e.fail {
+			continue
+		}
+		c.Bad(key, rule, w.InstrPos(e.ret), "this return is reachable although the walk reported an error, and it does not fail the walk")
+		return
+	}
+	c.Check(len(cut) > 0, key, rule, w.FnPos(cl), "the callback never compares its error parameter with nil")
+}
+
+// c20ErrTestedSel selects the edges "the error of this call is nil": the nil edge of a comparison of the call's error
+// result with nil, or of an error variable (phi) that holds that result on the way from the call.
+func c20ErrTestedSel(call *ssa.Call) EdgeSel {
+	byLabel := anyOf(c20ErrNilLabels(call)...)
+	var from func(v ssa.Value, depth int) bool
+	from = func(v ssa.Value, depth int) bool {
+		if depth > 4 {
+			return false
+		}
+		switch x := v.(type) {
+		case *ssa.Phi:
+			for _, e := range x.Edges {
+				if from(e, depth+1) {
+					return true
+				}
+			}
+			return false
+		}
+		return c20IsErrOf(v, call)
+	}
+	return func(l string, iff *ssa.If, truth bool) bool {
+		if byLabel(l, iff, truth) {
+			return true
+		}
+		bo, ok := iff.Cond.(*ssa.BinOp)
+		if !ok || (bo.Op != token.EQL && bo.Op != token.NEQ) || (bo.Op == token.EQL) != truth {
+			return false
+		}
+		switch {
+		case isNilConst(bo.Y):
+			_, isPhi := bo.X.(*ssa.Phi)
+			return isPhi && from(bo.X, 0)
+		case isNilConst(bo.X):
+			_, isPhi := bo.Y.(*ssa.Phi)
+			return isPhi && from(bo.Y, 0)
+		}
+		return false
+	}
+}
+
+// c20IsErrOf: v is the error result of the call.
+func c20IsErrOf(v ssa.Value, call *ssa.Call) bool {
+	switch x := v.(type) {
+	case *ssa.Call:
+		return x == call && isErrorType(x.Type())
+	case *ssa.Extract:
+		return x.Tuple == ssa.Value(call) && isErrorType(x.Type())
+	}
+	return false
+}
+
+// c20ErrorOfCall: the call yields an error (alone, or as the last of several results).
+func c20ErrorOfCall(call *ssa.Call) bool {
+	switch t := call.Type().(type) {
+	case *types.Tuple:
+		return t.Len() > 0 && isErrorType(t.At(t.Len()-1).Type())
+	default:
+		return isErrorType(t)
+	}
+}
+
+// c20CopyErrors (the clause "success only after a successful copy", one level below Install): a copy routine — a module
+// function Install reaches as a copy into the plugin directory, and every module function below it that reports by an
+// error — answers nil only if every step it took answered nil. For each call in such a function that yields an error
+// (os / io / fs / filepath calls, module functions, functions it was handed): with the edges "that error is nil"
+// removed, every return reachable from the call fails (a non-nil error) or returns that very error. An error that is
+// dropped, overwritten before it is tested, or tested by a condition that no longer decides (`cond && err != nil`) lets
+// the routine report success although a file was not created, not filled or not made executable; Install then reports
+// a successful installation of a plugin directory that does not hold the files of the source.
+// Accepted shapes: `if err != nil { return … }` in any spelling, `if err := f(); err != nil`, `return f()`,
+// `_, err = f(); return err`, an error variable assigned in the arms of a switch and tested after it, results spilled
+// for deferred calls. Not examined: deferred calls and go statements (Close in a defer), functions without an error
+// result (nowhere to report to), constructors of error values (errors.*, fmt.*).
+func c20CopyErrors(c *Ctx, copies []c20Effect) {
+	w := c.W
+	seen := map[*ssa.Function]bool{}
+	var fns []*ssa.Function
+	for _, e := range copies {
+		g := staticCallee(e.call)
+		if g == nil {
+			continue
+		}
+		for _, f := range c20Tree(w, g) {
+			if !seen[f] {
+				seen[f] = true
+				fns = append(fns, f)
+			}
+		}
+	}
+	rule := "a copy routine answers nil only if every step it took answered nil: the error of each call on the copy path is tested (and the routine fails on it) or returned before the routine can report success"
+	nCalls := 0
+	for _, f := range fns {
+		res := f.Signature.Results()
+		if res.Len() == 0 || !isErrorType(res.At(res.Len()-1).Type()) {
+			continue
+		}
+		fi := w.Info(f)
+		n, bad, site := 0, "", w.FnPos(f)
+		for _, ci := range allCalls(f) {
+			call, ok := ci.(*ssa.Call)
+			if !ok || !c20ErrorOfCall(call) {
+				continue
+			}
+			if g := staticCallee(call); g != nil && g.Pkg != nil {
+				if pp := g.Pkg.Pkg.Path(); pp == "errors" || pp == "fmt" {
+					continue
+				}
+			}
+			n++
+			c.Evals++
+			cut := fi.edgesMatching(c20ErrTestedSel(call))
+			for _, e := range c20ExitsUnder(fi, []state{{call.Block().Index, 0, -1}}, cut) {
+				if e.fail {
+					continue
+				}
+				if e.val != nil && (c20IsErrOf(e.val, call) || c20IsErrOf(spilledRet(e.val), call)) {
+					continue
+				}
+				if bad == "" {
+					bad, site = "the error of "+trunc(calleeName(call), 60)+" ("+w.InstrPos(call)+") is neither tested nor returned on a path to the return at "+w.InstrPos(e.ret), w.InstrPos(call)
+				}
+				break
+			}
+		}
+		if n == 0 {
+			continue
+		}
+		nCalls += n
+		c.SeenFn(f.String())
+		c.Check(bad == "", "copy/errors-checked/"+fnName(f), rule, site, bad)
+	}
+	if nCalls < 4 {
+		c.Unk("copy/errors-checked#count", "vacuity guard: the copy routines below Install make at least 4 calls that yield an error", "-", fmt.Sprintf("%d", nCalls))
+	}
+}
